@@ -117,6 +117,17 @@ func newAofEnv(t *testing.T) *aofEnv {
 	return &aofEnv{t: t, srv: redisd.New(aofTarget)}
 }
 
+// curPre, when set, turns the quiescence waits of this harness into preemption-aware ones.
+var curPre *preemptCtl
+
+func aofWait() {
+	if curPre != nil {
+		curPre.settle()
+		return
+	}
+	synctest.Wait()
+}
+
 // aofRun is one running RedisOutput.Send.
 type aofRun struct {
 	env    *aofEnv
@@ -136,7 +147,7 @@ func (e *aofEnv) start(ro *RedisOutput, items []sItem, startOff int64) *aofRun {
 	r := &aofRun{env: e, ro: ro, g: g, cancel: cancel, done: make(chan error, 1), items: items}
 	rd := newHReader(g, aofRunID, startOff, -1, true)
 	go func() { r.done <- ro.Send(ctx, rd) }()
-	synctest.Wait()
+	aofWait()
 	r.poll()
 	return r
 }
@@ -158,14 +169,14 @@ func (r *aofRun) release(n int) {
 		r.pos++
 	}
 	r.env.events++
-	synctest.Wait()
+	aofWait()
 	r.poll()
 }
 
 func (r *aofRun) tick(name string) bool {
 	ok := vtime.Fire(name)
 	r.env.events++
-	synctest.Wait()
+	aofWait()
 	r.poll()
 	return ok
 }
@@ -175,12 +186,12 @@ func (r *aofRun) tick(name string) bool {
 func (r *aofRun) stop() {
 	r.cancel()
 	r.g.Close(nil)
-	synctest.Wait()
+	aofWait()
 	r.poll()
 	if !r.ended {
 		// give retry sleeps (virtual time) a chance to elapse
 		time.Sleep(30 * time.Second)
-		synctest.Wait()
+		aofWait()
 		r.poll()
 	}
 }
